@@ -556,6 +556,26 @@ func corpus() []json.RawMessage {
 		add(input{K: "fuzz", E: e, B: []byte{0x80, '"', 0xff}})
 	}
 	extraCorpus(add)
+	// quoted elements with escapes at and beyond the validity boundaries, as map key, map value, slice
+	// element and set member, alone and next to a well-formed neighbour
+	for _, e := range textgen.BoundaryEscapes {
+		q := `"a` + e + `b"`
+		qe := `"` + e + `"`
+		for _, el := range []string{q, qe} {
+			add(input{K: "str", T: "map:str:str", S: el + `:"v"`})
+			add(input{K: "str", T: "map:str:str", S: `"k":` + el})
+			add(input{K: "str", T: "map:str:str", S: `"k":"v",` + el + `:` + el})
+			add(input{K: "str", T: "nenv", S: `k:` + el})
+			add(input{K: "str", T: "mss", S: el + `:"v","k":` + el})
+			add(input{K: "str", T: "map:str:i8", S: el + `:1`})
+			add(input{K: "str", T: "map:lbl:lbl", S: el + `:` + el})
+			add(input{K: "str", T: "sl:str", S: `"x",` + el})
+			add(input{K: "str", T: "names", S: el})
+			add(input{K: "str", T: "set", S: el + `,"y"`})
+			add(input{K: "str", T: "sl:sl:str", S: el})
+			add(input{K: "str", T: "sl:u16", S: el})
+		}
+	}
 	docCorpus(add)
 	bomCorpus(add)
 	caseShiftCorpus(add)
